@@ -179,6 +179,40 @@ def o_summary_lines(ctx):
     return
 
 
+def o_option_plumbing(ctx):
+    """-g/--grid and -w/--window reach the calculation as given: the window is not altered by the grid and vice versa;
+    and the printed profile rows are the grid points on the window lattice window_min + i*step (whole pipeline)"""
+    import propka.lib as L
+    import propka.output as O
+    from . import micro as M
+    case = ctx.choice('options', [([], (0.0, 14.0, 0.1), (0.0, 14.0, 1.0)),
+                                  (['-g', '0.5', '13.5', '0.1'], (0.5, 13.5, 0.1), (0.0, 14.0, 1.0)),
+                                  (['-g', '1', '14', '0.1', '-w', '0', '14', '2'], (1.0, 14.0, 0.1), (0.0, 14.0, 2.0)),
+                                  (['-w', '2', '6', '0.5'], (0.0, 14.0, 0.1), (2.0, 6.0, 0.5)),
+                                  (['-g', '2', '10', '0.5', '-w', '1', '11', '1'], (2.0, 10.0, 0.5), (1.0, 11.0, 1.0))])
+    args, grid, window = case
+    opts = L.loadOptions(args + ['x.pdb'])
+    ctx.claim('grid-as-given', tuple(opts.grid) == grid, detail='%r -> %r' % (args, opts.grid))
+    ctx.claim('window-as-given', tuple(opts.window) == window, detail='%r -> %r' % (args, opts.window))
+    mol = M.run(M.text('pep8'), args=args)
+    text = O.get_folding_profile_section(mol, conformation='AVR', reference='neutral', window=mol.options.window)
+    printed = []
+    for ln in text.split('\n')[2:]:
+        if not ln.strip():
+            break
+        printed.append(round(float(ln.split()[0]), 2))
+    want = []
+    g = grid[0]
+    i = 0
+    while round(grid[0] + i * grid[2], 6) <= grid[1] + 1e-9:
+        ph = round(grid[0] + i * grid[2], 6)
+        k = (ph - window[0]) / window[2]
+        if window[0] - 1e-9 <= ph <= window[1] + 1e-9 and abs(k - round(k)) < 1e-6:
+            want.append(round(ph, 2))
+        i += 1
+    ctx.claim('printed-rows-on-the-window-lattice', printed == want, detail='%r: printed %r, expected %r' % (args, printed, want))
+
+
 def mk_grid_fp(K):
     def body(ctx):
         """make_grid in IEEE double arithmetic: for a decimal grid
@@ -287,6 +321,9 @@ def obligations(tier):
                           bounds='optimum (pH in [-2,16], dG in [-50,50]), 80 % range and stability range each determined (symbolic values, 0.0 included) or None',
                           shims=['MolecularContainer.get_folding_profile -> the symbolic tuple'],
                           claim_doc='each of the three statements is printed with its values iff the quantity was determined; otherwise "Could not determine"', max_paths=2000))
+    obs.append(Obligation('O5-option-plumbing', o_option_plumbing, code=['propka/lib.py:build_parser', 'propka/lib.py:loadOptions', 'propka/output.py:get_folding_profile_section', 'propka/run.py:single'],
+                          bounds='5 command lines combining -g and -w (grid start off / on the window lattice, window wider or narrower than the grid)', kind='table-check',
+                          claim_doc='options.grid and options.window are what was given; the printed rows are the grid points on window_min + i*step'))
     obs.append(Obligation('O3-grid-exact', o_grid_exact, code=['propka/lib.py:make_grid'], bounds='K in {0,1,4}; min in [-5,20], step in [0.01,5], max = min + (K+f)*step with f in [0,0.99] (exact reals)',
                           claim_doc='K+1 points min + i*step, none beyond max', max_paths=2000))
     # QF_FP queries are discharged by the cvc5 binary (z3 needs minutes per query)
